@@ -267,19 +267,10 @@ def mk_state(reg):
     return Agg("adt", "mahf::state::State", "State", vals)
 
 
-def mk_oracle(script, fault):
-    def visible(interp, lvl):
-        its = interp.mstate.get("iters", (None,) * MAXLVL)
-        for i in range(lvl, -1, -1):
-            if its[i] is not None:
-                return i
-        return None
-
+def mk_oracle(script, fault, store):
     def record(interp, env, phase, ident, lvl):
-        root = interp.mstate.get("frames", {}).get("root", env)
-        its = interp.mstate.get("iters", (None,) * MAXLVL)
-        h = visible(interp, lvl) if lvl is not None else None
-        vis = root.get(HOME + h) if h is not None else None
+        v = store.visible_value(interp, env, ITER, lvl) if lvl is not None else None
+        vis = (v.fields[0] if isinstance(v, Agg) and v.fields else v) if v is not None else None
         interp.mstate["trace"] = interp.mstate.get("trace", ()) + ((phase, ident, lvl, vis),)
         seen = dict(interp.mstate.get("seen", ()))
         n = seen[(ident, phase)] = seen.get((ident, phase), 0) + 1
@@ -321,18 +312,14 @@ def mk_oracle(script, fault):
             lvl = level_of(interp, env, args[0])
             if lvl is None or lvl + 1 >= MAXLVL:
                 return TOP
-            its = list(interp.mstate.get("iters", (None,) * MAXLVL))
-            its[lvl + 1] = None
-            interp.mstate["iters"] = tuple(its)
+            store.clear_level(interp, lvl + 1)
             interp.mstate["open"] = interp.mstate.get("open", 0) + 1
             return Sym("reg:%d" % (lvl + 1))
         if k == "mahf::state::registry::StateRegistry::into_parent":
             lvl = level_of(interp, env, args[0])
             if lvl is None or lvl == 0:
                 return TOP
-            its = list(interp.mstate.get("iters", (None,) * MAXLVL))
-            its[lvl] = None
-            interp.mstate["iters"] = tuple(its)
+            store.clear_level(interp, lvl)
             interp.mstate["open"] = interp.mstate.get("open", 0) - 1
             return Agg("tuple", None, None, [some(Sym("reg:%d" % (lvl - 1))), Sym("child-registry")])
         if k in ("core::convert::Into::into", "core::convert::From::from") or nm in ("into", "from") and "convert" in k:
@@ -347,63 +334,6 @@ def mk_oracle(script, fault):
             return a0
         if k in ("mahf::state::registry::StateRegistry::new", "core::default::Default::default") and "StateRegistry" in (f.get("ret") or ""):
             return Sym("registry-placeholder")
-        if k.startswith("mahf::state::registry::StateRegistry::") and (f.get("gargs") or [""])[0] == ITER:
-            lvl = level_of(interp, env, args[0])
-            if lvl is None:
-                return TOP
-            its = list(interp.mstate.get("iters", (None,) * MAXLVL))
-            if nm == "insert":
-                old = its[lvl]
-                its[lvl] = 0
-                interp.mstate["iters"] = tuple(its)
-                interp.write_ref(env, Ref(HOME + lvl, [], frame="root"), load(interp, env, args[1]).fields[0] if isinstance(load(interp, env, args[1]), Agg) else TOP)
-                return NONE if old is None else some(Sym("old-iterations"))
-            h = visible(interp, lvl)
-            if nm in ("try_borrow_value_mut", "try_borrow_value"):
-                return ok(Ref(HOME + h, [], frame="root")) if h is not None else err(Sym("StateError::NotFound"))
-            if nm in ("borrow_value_mut", "borrow_value"):
-                return Ref(HOME + h, [], frame="root") if h is not None else "DIVERGE"
-            if nm in ("get_value", "try_get_value"):
-                root = interp.mstate.get("frames", {}).get("root", env)
-                v = root.get(HOME + h) if h is not None else None
-                if nm == "get_value":
-                    return v if h is not None else "DIVERGE"
-                return ok(v) if h is not None else err(Sym("StateError::NotFound"))
-            if nm == "set_value" and h is not None:
-                interp.write_ref(env, Ref(HOME + h, [], frame="root"), args[1])
-                return unit
-            if nm in ("contains", "has"):
-                return h is not None
-            if nm == "contains_at_top":
-                return its[lvl] is not None
-            if nm == "entry":
-                # the registry's entry API: the scope that holds the value, else the scope the call was made on
-                E = "mahf::state::registry::entry::Entry"
-                if h is not None:
-                    return Agg("adt", E, "Occupied", [Sym("iter-occupied:%d" % h)])
-                return Agg("adt", E, "Vacant", [Sym("iter-vacant:%d" % lvl)])
-            return TOP
-        if k.startswith("mahf::state::registry::entry::OccupiedEntry::") and isinstance(a0, Sym) and a0.tag.startswith("iter-occupied:"):
-            h = int(a0.tag.split(":")[1])
-            if nm in ("get", "get_mut", "into_mut"):
-                return Ref(HOME + h, [], frame="root")
-            if nm == "insert":
-                root = interp.mstate.get("frames", {}).get("root", env)
-                oldv = root.get(HOME + h)
-                v = load(interp, env, args[1])
-                interp.write_ref(env, Ref(HOME + h, [], frame="root"), v.fields[0] if isinstance(v, Agg) else TOP)
-                return Agg("adt", ITER, None, [oldv])
-            return TOP
-        if k.startswith("mahf::state::registry::entry::VacantEntry::") and isinstance(a0, Sym) and a0.tag.startswith("iter-vacant:"):
-            lvl = int(a0.tag.split(":")[1])
-            if nm == "insert":
-                its = list(interp.mstate.get("iters", (None,) * MAXLVL))
-                its[lvl] = 0
-                interp.mstate["iters"] = tuple(its)
-                v = load(interp, env, args[1])
-                interp.write_ref(env, Ref(HOME + lvl, [], frame="root"), v.fields[0] if isinstance(v, Agg) else TOP)
-                return Ref(HOME + lvl, [], frame="root")
-            return TOP
         return TOP
     return oracle
 
@@ -420,13 +350,13 @@ def run_real(F, t, script, fault, max_visits=24):
     state = mk_state(Sym("reg:0"))
     inl = lambda k: (k.startswith("mahf::components::control_flow::") or k.startswith("<mahf::components::control_flow::") or k.startswith("mahf::configuration::")
                      or k.startswith("mahf::state::State::") or k.startswith("<mahf::state::State") or k.startswith("mahf::state::registry::entry::Entry::") or k.startswith("<mahf::state::registry::entry::Entry") or k.startswith("<mahf::state::common::Iterations as core::default::Default>") or k.startswith("mahf::state::require::") or k.startswith("<mahf::state::require::"))
-    it = install(Interp(fn.body, chain(mk_oracle(script, fault), coll_oracle, std_oracle), [cfg, Sym("problem"), Ref(HOME - 1, [], frame="root")], facts=F, inline=inl, max_visits=max_visits, max_paths=40, max_depth=40))
+    import statemodel
+    store = statemodel.Store(F, levels=MAXLVL, base=HOME, auto=lambda ty: {} if ty == ITER else None, outward=-1, level_of=level_of)
+    it = install(Interp(fn.body, chain(mk_oracle(script, fault, store), store, coll_oracle, std_oracle), [cfg, Sym("problem"), Ref(HOME - 1, [], frame="root")], facts=F, inline=inl, max_visits=max_visits, max_paths=40, max_depth=40))
     it.dispatch = True
-    env = {HOME - 1: state}
-    for i in range(MAXLVL):
-        env[HOME + i] = None
-    it.extra_env = env
-    it.init_state = {"heap": heap, "next_vec": 0, "iters": (None,) * MAXLVL}
+    it.extra_env = {HOME - 1: state}
+    it.init_state = {"heap": heap, "next_vec": 0}
+    store.install(it)
     return it.run()
 
 
